@@ -1,0 +1,38 @@
+//go:build verif
+
+package larking
+
+import "net/http"
+
+// This file is compiled only with the "verif" build tag. It adds accessors
+// used by the external verification harness (property C04: content
+// negotiation) and changes no behaviour.
+
+// VerifParseAccept is parseAccept: the media ranges and their q-values.
+func VerifParseAccept(values []string) (vals []string, qs []float64) {
+	for _, s := range parseAccept(values) {
+		vals = append(vals, s.Value)
+		qs = append(qs, s.Q)
+	}
+	return vals, qs
+}
+
+// VerifNegotiateContentType is negotiateContentType.
+func VerifNegotiateContentType(header http.Header, offers []string, defaultOffer string) string {
+	return negotiateContentType(header, offers, defaultOffer)
+}
+
+// VerifNegotiateContentEncoding is negotiateContentEncoding.
+func VerifNegotiateContentEncoding(header http.Header, offers []string) string {
+	return negotiateContentEncoding(header, offers)
+}
+
+// VerifContentTypeOffers returns the content types offered in negotiation.
+func (m *Mux) VerifContentTypeOffers() []string {
+	return append([]string(nil), m.opts.contentTypeOffers...)
+}
+
+// VerifEncodingTypeOffers returns the content encodings offered in negotiation.
+func (m *Mux) VerifEncodingTypeOffers() []string {
+	return append([]string(nil), m.opts.encodingTypeOffers...)
+}
